@@ -434,15 +434,25 @@ Fixpoint events_eqb (a b : list event) : bool :=
   | _, _ => false
   end.
 
+(** The harness's recording visitor implements the callbacks of these five hooks; callbacks of
+    any other hook a future tree may add fall through to the trait's default no-ops. *)
+Definition rec_hooks : list str :=
+  [s2l "visit_expr"; s2l "visit_query"; s2l "visit_table_factor"; s2l "visit_statement"; s2l "visit_relation"].
+Definition recorded (e : event) : bool := mem (e_hook e) rec_hooks.
+Definition break_at_rec (k : nat) : visitor (list event) :=
+  fun e s => if recorded e then (s ++ [e], Nat.eqb (length s + 1) k) else (s, false).
+Definition break_at_mut_rec (k : nat) : visitor_mut (list event) :=
+  fun e v s => if recorded e then (v, s ++ [e], Nat.eqb (length s + 1) k) else (v, s, false).
+
 Definition c16_code (E : env) (c : sval * list (phase * str * N) * list (nat * nat)) : N :=
   match c with
   | (v, tr, ks) =>
-    let w := walk E v in
+    let w := filter recorded (walk E v) in
     if negb (obs_eqb (observed v w) tr) then 1
     else if negb (forallb (fun kn =>
-              let '(s, b) := walkB (list event) E v (break_at (fst kn)) [] in
+              let '(s, b) := walkB (list event) E v (break_at_rec (fst kn)) [] in
               Nat.eqb (length s) (snd kn) && b && events_eqb s (firstn (snd kn) w)) ks) then 2
-    else match walk_mut (list event) (Datatypes.S (sv_depth v)) E (break_at_mut 0) v [] with
+    else match walk_mut (list event) (Datatypes.S (sv_depth v)) E (break_at_mut_rec 0) v [] with
          | Some (v', s, b) => if sval_eqb v v' && negb b && events_eqb s w then 0 else 3
          | None => 3
          end
